@@ -47,6 +47,21 @@ func Awkward() []*Grammar {
 		},
 		Prods: []*Prod{P("S", Al(Call()), Al(Call(A(0), T(1)), "S", "special"), Al(Call(A(0), T(1)), "S", "esc"))}})
 
+	// hostile characters INSIDE action expressions and a header that imports
+	// packages the generated file might want for itself
+	raw := func(t string) Action { return Action{Kind: ActRaw, Raw: t} }
+	add(&Grammar{ID: "awk-actions", Seps: wsSeps, HeaderImports: []string{`"fmt"`, `"strings"`, `"errors"`, `"strconv"`}, RawUsesToken: true, Ambiguous: true,
+		Lex: append(letters(), LexDef{Kind: LexToken, Name: "id", Pattern: `_letter {_letter}`, Samples: []string{"a", "bc"}}, ws()),
+		Prods: []*Prod{P("S", Al(Call(A(0)), "Item"), Al(Call(A(0), A(1)), "S", "Item")),
+			{Head: "Item", Alts: []*Alt{
+				{Syms: S(`"q"`, "id"), Action: raw(`act.N(@ID@, $1, '"', "costs $0 dollars", '"', $0)`)},
+				{Syms: S(`"b"`, "id"), Action: raw("act.N(@ID@, '`', $1, '`', `raw $0 text`, $T1)")},
+				{Syms: S(`"f"`, "id"), Action: raw(`fmt.Sprintf("%d%% of %q", len(strings.TrimSpace(string($T1.Lit))), '\''), nil`)},
+				{Syms: S(`"e"`, "id"), Action: raw(`nil, errors.New("bad " + strconv.Quote(fmt.Sprint($1)))`)},
+				{Syms: S(`"c"`, "id"), Action: raw(`act.N(@ID@, $1 /* $0 in a comment, "quote */, '\\', "\\", "\"$1\"")`)},
+				{Syms: S(`"m"`, "id"), Action: raw(`act.N(@ID@, map[string]interface{}{"$0": $0, "x": []interface{}{$1}}["$0"])`)},
+			}}}})
+
 	// production names that collide with identifiers of the generated code
 	add(&Grammar{ID: "awk-prodnames", Seps: wsSeps,
 		Lex: append(letters(), LexDef{Kind: LexToken, Name: "id", Pattern: `_letter {_letter}`, Samples: []string{"a", "bc"}}, ws()),
